@@ -169,6 +169,58 @@ def check_filterby_attr(rep, label, view, attrs, ids, attr, numeric):
         rep.bad("stat-raises", f"{label}.filterby_attr: {type(e).__name__}: {e}")
 
 
+_SLOW = ("clique_eigenvector_centrality", "h_eigenvector_centrality", "z_eigenvector_centrality", "node_edge_centrality",
+         "katz_centrality", "local_simplicial_fraction", "local_edit_simpliciality", "local_face_edit_simpliciality")
+
+
+def all_stats_formats(rep, H):
+    """Every statistic of the stats module for this kind of view (found by introspection): its output formats agree
+    with each other and follow view order; where the package offers a function of the same name, both agree."""
+    import inspect
+
+    import xgi
+
+    directed = type(H).__name__ == "DiHypergraph"
+    for vname, modname in (("nodes", "dinodestats" if directed else "nodestats"), ("edges", "diedgestats" if directed else "edgestats")):
+        view = getattr(H, vname)
+        ids = list(view)
+        mod = getattr(xgi.stats, modname)
+        for sname, fn in sorted(vars(mod).items()):
+            if sname.startswith("_") or not inspect.isfunction(fn) or fn.__module__ != mod.__name__ or sname in _SLOW:
+                continue
+            try:
+                st = getattr(view, sname)
+                d = st.asdict()
+            except Exception:  # noqa: BLE001 - a statistic undefined on this input
+                continue
+            try:
+                if list(d) != ids:
+                    rep.bad("stat-format", f"{vname}.{sname}.asdict() keys {list(d)} do not follow view order {ids}")
+                    continue
+                l = st.aslist()
+                if len(l) != len(ids) or not all(_eq(x, d[i]) if not isinstance(x, dict) else x == d[i] for x, i in zip(l, ids)):
+                    rep.bad("stat-format", f"{vname}.{sname}.aslist() = {l} disagrees with asdict() {d}")
+                if sname != "attrs":
+                    a = st.asnumpy().tolist()
+                    if len(a) != len(ids) or not all(_eq(x, d[i]) for x, i in zip(a, ids)):
+                        rep.bad("stat-format", f"{vname}.{sname}.asnumpy() = {a} disagrees with asdict() {d}")
+                    s = st.aspandas()
+                    tup = any(isinstance(i, tuple) for i in ids)
+                    if (not tup and list(s.index) != ids) or not all(_eq(x, d[i]) for x, i in zip(s.tolist(), ids)):
+                        rep.bad("stat-format", f"{vname}.{sname}.aspandas() index {list(s.index)} values {s.tolist()} disagree with "
+                                f"asdict() {d}")
+                f = getattr(xgi, sname, None)
+                if f is not None and vname == "nodes" and not directed and sname not in ("degree", "attrs"):
+                    try:
+                        fd = f(H)
+                    except Exception:  # noqa: BLE001
+                        fd = None
+                    if isinstance(fd, dict) and (set(fd) != set(d) or not all(_eq(fd[i], d[i]) for i in d)):
+                        rep.bad("stat-vs-function", f"nodes.{sname} = {d} but xgi.{sname}(H) = {fd}")
+            except Exception as e:  # noqa: BLE001
+                rep.bad("stat-raises", f"{vname}.{sname}: {type(e).__name__}: {e}")
+
+
 def undirected_definitions(rep, H):
     nodes, edges = list(H.nodes), list(H.edges)
     mem = {e: set(m) for e, m in H.edges.members(dtype=dict).items()}
@@ -445,6 +497,7 @@ def inv_views(ctx):
                 if new != surv + created:
                     rep.bad("insertion-order", f"{ctx.op}: {kind} listed as {new}; before the call {old} "
                             f"(survivors should keep their order and precede new IDs)")
+        all_stats_formats(rep, twin)
         for obj, tag in ((H, ""), (twin, "[object queried at every earlier state of its history] ")):
             k = len(rep.out)
             if held.directed:
